@@ -2,6 +2,7 @@
 # sweep.sh <tier> <seeds...> : runs every check at the given seeds and prints the verdict lines
 cd "$(dirname "$0")"
 tier=$1; shift
+[ -n "$VP_RUN_REPO" ] && export VERIF_REPO="$VP_RUN_REPO"
 [ -x bin/vcheck ] && [ -d .cache/gobase ] || ./setup.sh >/dev/null 2>&1
 for s in "$@"; do
   for p in C01 C02 C03 C04 C05 C06 C07 C08 C09 C10 C11 C12 C13 C14 C15 C16 C17 C18 C19 C20; do
